@@ -2,7 +2,7 @@
    ExtrOcamlBasic only (bool, option, list, prod, unit, sumbool mapped to the
    OCaml types); Z / positive / N / nat stay the extracted inductive types. *)
 From Coq Require Import Extraction ExtrOcamlBasic.
-From LNC Require Noise Sym Pairing GbnTimed Session.
+From LNC Require Noise Sym Pairing GbnTimed Session Reconnect.
 From LNC Require Import GoLite MessagesGen QueueGen SyncerGen MsgDataGen SidGen Codec Gbn GbnMonitor GbnHandshake Timeout.
 
 Extraction Language OCaml.
@@ -20,4 +20,4 @@ Extraction "lnc_model.ml"
   Sym.run Sym.mk_init Sym.mk_resp Sym.faithful Sym.term_eqb Sym.completed
   Pairing.entropy_to_words Pairing.words_to_entropy
   GbnTimed.kstep GbnTimed.pstep
-  Session.sstep Session.sinit.
+  Session.sstep Session.sinit Reconnect.crun.
